@@ -35,15 +35,15 @@ theorem fmtRegExp_plain (cap esc : Bool) (e : Expr) :
   rw [R_append, R_append]
   rfl
 
-theorem top_parse (cap esc : Bool) (e : Expr) (hwf : e.WF) (f : Nat) :
-    parseLoop false (f + topToks cap esc e) (R (bodyText (cfgPlain cap esc) e) ++ [36]) [] [] [Pat.bol] =
+theorem top_parse (v cap esc : Bool) (e : Expr) (hwf : e.WF) (f : Nat) :
+    parseLoop false (f + topToks cap esc e) (RV v (bodyText (cfgPlain cap esc) e) ++ [36]) [] [] [Pat.bol] =
       parseLoop false f [36] [] [] ((topItems cap esc e).reverse ++ [Pat.bol]) := by
-  have pe := Expr.pp cap esc e hwf
+  have pe := Expr.pp v cap esc e hwf
   rw [bodyText_eq, topToks, topItems]
   cases ha : e.isAlt with
   | true =>
-    simp only [ite_true, R_append, R_lp, List.append_assoc]
-    have hR41 : R [41] = [41] := by decide
+    simp only [ite_true, RV_append, RV_lp, List.append_assoc]
+    have hR41 : RV v [41] = [41] := by cases v <;> decide
     rw [hR41]
     have hfuel : f + ((e.toks cap esc).2 + 2) = (f + ((e.toks cap esc).2 + 1)) + 1 := by omega
     rw [hfuel]
@@ -60,49 +60,32 @@ theorem top_parse (cap esc : Bool) (e : Expr) (hwf : e.WF) (f : Nat) :
     simp only [Bool.false_eq_true, ite_false]
     exact pe.items ha f [36] [] [] [Pat.bol] (by intro _; simp)
 
-theorem top_len (cap esc : Bool) (e : Expr) (hwf : e.WF) : topToks cap esc e ≤ (R (bodyText (cfgPlain cap esc) e)).length := by
-  have pe := Expr.pp cap esc e hwf
+theorem top_len (v cap esc : Bool) (e : Expr) (hwf : e.WF) : topToks cap esc e ≤ (RV v (bodyText (cfgPlain cap esc) e)).length := by
+  have pe := Expr.pp v cap esc e hwf
   rw [bodyText_eq, topToks]
   cases ha : e.isAlt with
   | true =>
-    simp only [ite_true, R_append, R_lp, List.length_append]
+    simp only [ite_true, RV_append, RV_lp, List.length_append]
     have := pe.len2
-    have h41 : (R [41]).length = 1 := by decide
+    have h41 : (RV v [41]).length = 1 := by cases v <;> decide
     have hlp : 1 ≤ (lp cap).length := by cases cap <;> simp [lp]
     omega
   | false =>
     simp only [Bool.false_eq_true, ite_false]
     exact pe.len1 ha
 
-/-- **`Regex::new` accepts the printed text and reads it as `^ items $`** -/
-theorem parse_printed (cap esc : Bool) (e : Expr) (hwf : e.WF) :
-    Spec.parse (fmtRegExp (cfgPlain cap esc) e) =
-      some (⟨false, false⟩, catList (Pat.bol :: (topItems cap esc e ++ [Pat.eol]))) := by
-  rw [fmtRegExp_plain]
-  have hflags : parseFlags (94 :: (R (bodyText (cfgPlain cap esc) e) ++ [36])) =
-      (⟨false, false⟩, 94 :: (R (bodyText (cfgPlain cap esc) e) ++ [36])) := by
-    simp [parseFlags]
-  simp only [Spec.parse, hflags]
-  have hlen := top_len cap esc e hwf
-  generalize hT : topToks cap esc e = T at hlen
-  generalize hB : R (bodyText (cfgPlain cap esc) e) = B at hlen
-  have hfuel : 2 * (94 :: (B ++ [36])).length + 4 = (((2 * B.length + 5 - T) + 1 + 1) + T) + 1 := by
-    simp only [List.length_cons, List.length_append, List.length_nil]; omega
-  rw [hfuel, step_caret, ← hT, ← hB, top_parse cap esc e hwf, step_dollar, step_end]
-  simp [closeFrame, altList]
-
 /-! ### any combination of the two anchors -/
 
-theorem top_parseG (cap esc : Bool) (e : Expr) (hwf : e.WF) (f : Nat) (rest : List Nat) (co : List Pat)
+theorem top_parseG (v cap esc : Bool) (e : Expr) (hwf : e.WF) (f : Nat) (rest : List Nat) (co : List Pat)
     (hrest : rest.head? ≠ some 63) :
-    parseLoop false (f + topToks cap esc e) (R (bodyText (cfgPlain cap esc) e) ++ rest) [] [] co =
+    parseLoop false (f + topToks cap esc e) (RV v (bodyText (cfgPlain cap esc) e) ++ rest) [] [] co =
       parseLoop false f rest [] [] ((topItems cap esc e).reverse ++ co) := by
-  have pe := Expr.pp cap esc e hwf
+  have pe := Expr.pp v cap esc e hwf
   rw [bodyText_eq, topToks, topItems]
   cases ha : e.isAlt with
   | true =>
-    simp only [ite_true, R_append, R_lp, List.append_assoc]
-    have hR41 : R [41] = [41] := by decide
+    simp only [ite_true, RV_append, RV_lp, List.append_assoc]
+    have hR41 : RV v [41] = [41] := by cases v <;> decide
     rw [hR41]
     have hfuel : f + ((e.toks cap esc).2 + 2) = (f + ((e.toks cap esc).2 + 1)) + 1 := by omega
     rw [hfuel]
@@ -119,21 +102,21 @@ theorem top_parseG (cap esc : Bool) (e : Expr) (hwf : e.WF) (f : Nat) (rest : Li
     simp only [Bool.false_eq_true, ite_false]
     exact pe.items ha f rest [] [] co (fun _ => hrest)
 
-theorem body_safe (cap esc : Bool) (e : Expr) (hwf : e.WF) : Safe (R (bodyText (cfgPlain cap esc) e)) := by
+theorem body_safe (v cap esc : Bool) (e : Expr) (hwf : e.WF) : Safe (RV v (bodyText (cfgPlain cap esc) e)) := by
   rw [bodyText_eq]
   cases ha : e.isAlt with
-  | false => simp only [Bool.false_eq_true, ite_false]; exact Expr.safe cap esc e hwf
+  | false => simp only [Bool.false_eq_true, ite_false]; exact Expr.safe v cap esc e hwf
   | true =>
     simp only [ite_true]
-    rw [R_append, R_lp]
+    rw [RV_append, RV_lp]
     cases cap with
     | false => exact Or.inr ⟨40, _, rfl, Or.inr ⟨63, _, rfl, Or.inr rfl⟩⟩
     | true =>
-      have hh := (Expr.pp true esc e hwf).head [41] (by simp)
-      rw [R_append]
-      have h41 : R [41] = [41] := by decide
+      have hh := (Expr.pp v true esc e hwf).head [41] (by simp)
+      rw [RV_append]
+      have h41 : RV v [41] = [41] := by cases v <;> decide
       rw [h41]
-      cases ht : R (fmtExpr (cfgPlain true esc) e) ++ [41] with
+      cases ht : RV v (fmtExpr (cfgPlain true esc) e) ++ [41] with
       | nil => simp at ht
       | cons a r =>
         rw [ht] at hh
@@ -168,58 +151,79 @@ theorem fmtRegExp_anch (cap esc ns ne : Bool) (e : Expr) :
     rw [R_append, h94]
   · rw [R_append, h36]
 
-/-- **`Regex::new` accepts the printed text and reads it as the items between the requested anchors** -/
-theorem parse_printedA (cap esc ns ne : Bool) (e : Expr) (hwf : e.WF) :
-    Spec.parse (fmtRegExp (cfgAnch cap esc ns ne) e) =
-      some (⟨false, false⟩, catList (preA ns ++ (topItems cap esc e ++ postA ne))) := by
-  rw [fmtRegExp_anch]
-  have hlen := top_len cap esc e hwf
-  have hsafe := body_safe cap esc e hwf
-  have hbody := fun f rest co h => top_parseG cap esc e hwf f rest co h
+/-- **the parser loop reads the printed text as the items between the requested anchors** — for the plain characters
+(`v = false`: this is the text `Display for RegExp` writes) and for the characters as verbose mode escapes them; any
+sufficient amount of fuel -/
+theorem loop_printedA (v cap esc ns ne : Bool) (e : Expr) (hwf : e.WF) (F : Nat)
+    (hF : (RV v (bodyText (cfgPlain cap esc) e)).length + 3 ≤ F) :
+    parseLoop false F (preT ns ++ (RV v (bodyText (cfgPlain cap esc) e) ++ postT ne)) [] [] [] =
+      some (catList (preA ns ++ (topItems cap esc e ++ postA ne))) := by
+  have hlen := top_len v cap esc e hwf
+  have hbody := fun f rest co h => top_parseG v cap esc e hwf f rest co h
   generalize topToks cap esc e = T at hlen hbody
-  generalize R (bodyText (cfgPlain cap esc) e) = B at hlen hbody hsafe
-  have hflags : parseFlags (preT ns ++ (B ++ postT ne)) = (⟨false, false⟩, preT ns ++ (B ++ postT ne)) := by
-    cases ns with
-    | false => simp [preT, parseFlags]
-    | true =>
-      simp only [preT, ite_true, List.nil_append]
-      apply parseFlags_safe B hsafe
-      cases ne <;> simp [postT]
-  simp only [Spec.parse, hflags]
+  generalize RV v (bodyText (cfgPlain cap esc) e) = B at hlen hbody hF
   cases ns <;> cases ne
   · -- ^ body $
-    have hfuel : 2 * (preT false ++ (B ++ postT false)).length + 4 = (((2 * B.length + 5 - T) + 1 + 1) + T) + 1 := by
-      simp only [preT, postT, Bool.false_eq_true, ite_false, List.length_cons, List.length_append, List.length_nil]; omega
+    have hfuel : F = ((((F - T - 3)) + 1 + 1) + T) + 1 := by omega
     rw [hfuel]
     simp only [preT, postT, Bool.false_eq_true, ite_false, List.singleton_append]
     rw [step_caret, hbody _ _ _ (by simp), step_dollar, step_end]
     simp [closeFrame, altList, preA, postA]
   · -- ^ body
-    have hfuel : 2 * (preT false ++ (B ++ postT true)).length + 4 = (((2 * B.length + 4 - T) + 1) + T) + 1 := by
-      simp only [preT, postT, Bool.false_eq_true, ite_false, ite_true, List.length_cons, List.length_append, List.length_nil]; omega
+    have hfuel : F = (((F - T - 2) + 1) + T) + 1 := by omega
     rw [hfuel]
     simp only [preT, postT, Bool.false_eq_true, ite_false, ite_true, List.singleton_append, List.append_nil]
-    have := hbody ((2 * B.length + 4 - T) + 1) [] [Pat.bol] (by simp)
+    have := hbody ((F - T - 2) + 1) [] [Pat.bol] (by simp)
     rw [List.append_nil] at this
     rw [step_caret, this, step_end]
     simp [closeFrame, altList, preA, postA]
   · -- body $
-    have hfuel : 2 * (preT true ++ (B ++ postT false)).length + 4 = (((2 * B.length + 4 - T) + 1) + 1) + T := by
-      simp only [preT, postT, Bool.false_eq_true, ite_false, ite_true, List.length_cons, List.length_append, List.length_nil,
-        List.nil_append]; omega
+    have hfuel : F = (((F - T - 2) + 1) + 1) + T := by omega
     rw [hfuel]
     simp only [preT, postT, Bool.false_eq_true, ite_false, ite_true, List.nil_append]
     rw [hbody _ _ _ (by simp), step_dollar, step_end]
     simp [closeFrame, altList, preA, postA]
   · -- body
-    have hfuel : 2 * (preT true ++ (B ++ postT true)).length + 4 = ((2 * B.length + 3 - T) + 1) + T := by
-      simp only [preT, postT, ite_true, List.length_append, List.length_nil, List.nil_append]; omega
+    have hfuel : F = ((F - T - 1) + 1) + T := by omega
     rw [hfuel]
     simp only [preT, postT, ite_true, List.nil_append, List.append_nil]
-    have := hbody ((2 * B.length + 3 - T) + 1) [] [] (by simp)
+    have := hbody ((F - T - 1) + 1) [] [] (by simp)
     rw [List.append_nil] at this
     rw [this, step_end]
     simp [closeFrame, altList, preA, postA]
+
+/-- **`Regex::new` accepts the printed text and reads it as the items between the requested anchors** -/
+theorem parse_printedA (cap esc ns ne : Bool) (e : Expr) (hwf : e.WF) :
+    Spec.parse (fmtRegExp (cfgAnch cap esc ns ne) e) =
+      some (⟨false, false⟩, catList (preA ns ++ (topItems cap esc e ++ postA ne))) := by
+  rw [fmtRegExp_anch]
+  have hsafe := body_safe false cap esc e hwf
+  have hflags : parseFlags (preT ns ++ (R (bodyText (cfgPlain cap esc) e) ++ postT ne)) =
+      (⟨false, false⟩, preT ns ++ (R (bodyText (cfgPlain cap esc) e) ++ postT ne)) := by
+    cases ns with
+    | false => simp [preT, parseFlags]
+    | true =>
+      simp only [preT, ite_true, List.nil_append]
+      apply parseFlags_safe _ hsafe
+      cases ne <;> simp [postT]
+  simp only [Spec.parse, hflags]
+  have := loop_printedA false cap esc ns ne e hwf
+    (2 * (preT ns ++ (R (bodyText (cfgPlain cap esc) e) ++ postT ne)).length + 4)
+    (by simp only [List.length_append, RV_false]; omega)
+  rw [RV_false] at this
+  rw [this]
+  rfl
+
+theorem cfgAnch_plain (cap esc : Bool) : cfgAnch cap esc false false = cfgPlain cap esc := rfl
+
+/-- **`Regex::new` accepts the printed text and reads it as `^ items $`** -/
+theorem parse_printed (cap esc : Bool) (e : Expr) (hwf : e.WF) :
+    Spec.parse (fmtRegExp (cfgPlain cap esc) e) =
+      some (⟨false, false⟩, catList (Pat.bol :: (topItems cap esc e ++ [Pat.eol]))) := by
+  have := parse_printedA cap esc false false e hwf
+  rw [cfgAnch_plain] at this
+  rw [this]
+  rfl
 
 /-! ### what the parsed pattern accepts -/
 
@@ -325,7 +329,7 @@ theorem flags_printedA (cap esc ns ne : Bool) (e : Expr) (hwf : e.WF) :
   | false => simp [preT, parseFlags]
   | true =>
     simp only [preT, ite_true, List.nil_append]
-    apply parseFlags_safe _ (body_safe cap esc e hwf)
+    apply parseFlags_safe _ (body_safe false cap esc e hwf)
     cases ne <;> simp [postT]
 
 /-- a leading `(?i)` only sets the flag (any text that does not itself start with a flag group) -/
